@@ -131,6 +131,8 @@ def run(ctx):
     ctx.rule('C05.REDETECT', lambda: c03.rule_tipcheck(ctx, 'C05.REDETECT'), 5)
     ctx.rule('C05.STATEALIAS', lambda: c04.rule_statealias(ctx, 'C05'), 2)
     ctx.rule('C05.STORAGE', lambda: c04.rule_storage_batch(ctx, 'C05'), 2)
+    # the backup path commits through the same flush_utxo_db: the batch must carry the state that matches its rows
+    ctx.rule('C05.STATEMOVE', lambda: c04.rule_state_moves_with_commit(ctx, 'C05'), 2)
     # the restarted process re-runs the reorganisation from whatever was committed: every static condition of a correct
     # reorganisation (C03) is also a necessary condition here
     c03.run(ctx)
